@@ -115,6 +115,41 @@ def reread_checks(model, cfg):
     return [('accessor-not-idempotent:' + d[0], 'second read of the configuration of one model object differs in %r: %r then %r' % (d, cfg[d[0]], again.get(d[0])))] if d else []
 
 
+def measurement_selection_checks(pyhf, wsd0, wcfg, prng):
+    """a workspace with several measurements: the model built for a measurement selected by NAME or by INDEX carries that
+    measurement's parameter settings and POI (decoy measurements with other settings surround it)"""
+    bad = []
+    real = copy.deepcopy(wsd0['measurements'][0])
+    pars = real['config']['parameters']
+    def decoy(k):
+        d = {'name': 'decoy%d' % k, 'config': {'poi': '', 'parameters': []}}
+        for pc in pars:                      # same parameters configured differently (keeps required settings such as lumi's present)
+            q = copy.deepcopy(pc)
+            if 'inits' in q:
+                q['inits'] = [x + 0.125 for x in q['inits']]
+            if 'fixed' in q:
+                q['fixed'] = not q['fixed']
+            d['config']['parameters'].append(q)
+        return d
+    ndec = prng.choice([1, 2])
+    pos = prng.randrange(1, ndec + 1)          # never first: the default selection is not what is tested here
+    meas = [decoy(k) for k in range(ndec)]
+    meas.insert(pos, real)
+    doc = dict(copy.deepcopy(wsd0), measurements=meas)
+    ms = {'normsys': {'interpcode': 'code4'}, 'histosys': {'interpcode': 'code4p'}}
+    try:
+        ws = pyhf.Workspace(doc)
+        for how, kw in (('measurement_name', dict(measurement_name=real['name'])), ('measurement_index', dict(measurement_index=pos))):
+            cfg = engine.impl_config(ws.model(modifier_settings=ms, **kw))
+            diff = [k for k in wcfg if k != 'sigmas' and cfg.get(k) != wcfg[k]]
+            if diff:
+                bad.append(('measurement-selection:' + how, 'Workspace.model(%s=%r) on a workspace with measurements %r does not carry the settings of that measurement: differs in %r (e.g. %s: %r vs %r)'
+                            % (how, list(kw.values())[0], [m['name'] for m in meas], diff, diff[0], cfg.get(diff[0]), wcfg[diff[0]]), doc))
+    except Exception as e:
+        bad.append(('measurement-selection:raises', 'selecting a measurement of a well-formed workspace raises %s: %s' % (core.exc_enum(e), str(e)[:160]), doc))
+    return bad
+
+
 def workspace_data_checks(ws, wm, wsd0, obs, cfg):
     """Workspace.data read repeatedly (with and without auxiliary data) on one workspace object; expected layout from the
     observations handed in (pristine copy), the reported channel order and the reported auxiliary data.
@@ -252,6 +287,11 @@ def run(ctx):
         for sig, detail in poi_checks(poi, wcfg) + reread_checks(wm, wcfg):
             ctx.violation(sig, 'Workspace.model(): ' + detail, dict(case=case, workspace=wsd0, config={k: v for k, v in wcfg.items() if k != 'sigmas'}))
             found = True
+        if True:
+            stats['measurement_selections'] = stats.get('measurement_selections', 0) + 2
+            for sig, detail, doc in measurement_selection_checks(pyhf, wsd0, wcfg, prng):
+                ctx.violation(sig, detail, dict(case=case, workspace=doc, kind='measurement-selection', theorem='C12_overrides_verbatim (the selected measurement\'s settings)'))
+                found = True
         # Workspace.model(poi_name=...) : every other one-component parameter as the parameter of interest
         alts = [nm for nm, (a, b) in zip(wcfg['par_order'], wcfg['par_slices']) if b - a == 1 and nm != poi]
         for alt in prng.sample(alts, min(len(alts), 2)):
@@ -375,6 +415,15 @@ def replay(body):
     case = body['case']
     ms = {'normsys': {'interpcode': 'code4'}, 'histosys': {'interpcode': 'code4p'}}
     out = {}
+    if body.get('kind') == 'measurement-selection':
+        ws = pyhf.Workspace(copy.deepcopy(body['workspace']))
+        names = [m_['name'] for m_ in body['workspace']['measurements']]
+        k = names.index('meas')
+        by_name = engine.impl_config(ws.model(measurement_name='meas', modifier_settings=ms))
+        by_index = engine.impl_config(ws.model(measurement_index=k, modifier_settings=ms))
+        print(json.dumps(dict(measurements=names, by_name={x: by_name[x] for x in ('inits', 'fixed', 'poi_name', 'poi_index')},
+                              by_index={x: by_index[x] for x in ('inits', 'fixed', 'poi_name', 'poi_index')}, equal=by_name == by_index), indent=1, default=str))
+        return 0
     if 'workspace' in body:
         wsd = copy.deepcopy(body['workspace'])
         ws = pyhf.Workspace(wsd)
